@@ -24,18 +24,52 @@ def reference(root, fp, ep, fl, WM, Fm, Gm):
                  (WM.RAWCHARS, Fm.RAWCHARS)):
         if fl & a:
             common_f |= b
-    forced = Fm.NEGATE | Fm.DOTMATCH | Fm.NEGATEALL | Fm.SPLIT
+
+    def pieces_of(pattern):
+        """top-level `|` pieces (the `|` inside parentheses belongs to a group)"""
+        out_, cur, depth, i = [], '', 0, 0
+        while i < len(pattern):
+            ch = pattern[i]
+            if ch == '\\' and i + 1 < len(pattern):
+                cur += pattern[i:i + 2]
+                i += 2
+                continue
+            if ch == '(':
+                depth += 1
+            elif ch == ')' and depth:
+                depth -= 1
+            if ch == '|' and depth == 0:
+                out_.append(cur)
+                cur = ''
+            else:
+                cur += ch
+            i += 1
+        out_.append(cur)
+        return out_
 
     def test(pattern, name, relpath, pathmode, is_dir_test):
+        """include-any / exclude-none over the |-pieces, each decided by a single-pattern call WITHOUT the negation flags:
+        a piece starting with `!` (`-` under MINUSNEGATE; not `!(` under EXTMATCH) excludes; exclusions alone mean
+        'everything except'."""
         if not pattern:
             return None
+        if pathmode and any(x.startswith('/') or x.startswith('!/') for x in pattern.split('|')):
+            return 'SKIP'
+        sym = '-' if fl & WM.MINUSNEGATE else '!'
+        pos, neg = [], []
+        for pc in pieces_of(pattern):
+            if pc.startswith(sym) and not (sym == '!' and fl & WM.EXTMATCH and pc.startswith('!(')):
+                neg.append(pc[1:])
+            else:
+                pos.append(pc)
         if pathmode:
-            g = common_f | forced | (Gm.GLOBSTAR if fl & WM.GLOBSTAR else 0) | (Gm.MATCHBASE if mb else 0)
-            p = pattern
-            # _ANCHOR: a leading slash anchors to the root: strip it from every |-piece that starts with one
-            return Gm.globmatch(relpath + ('/' if is_dir_test else ''), [q.lstrip('/') if False else q for q in [p]], flags=g) \
-                if not any(x.startswith('/') or x.startswith('!/') for x in p.split('|')) else 'SKIP'
-        return Fm.fnmatch(name, pattern, flags=common_f | forced)
+            g = common_f | Gm.DOTMATCH | (Gm.GLOBSTAR if fl & WM.GLOBSTAR else 0) | (Gm.MATCHBASE if mb else 0)
+            subject = relpath + ('/' if is_dir_test else '')
+            one = lambda q: Gm.globmatch(subject, q, flags=g)
+        else:
+            one = lambda q: Fm.fnmatch(name, q, flags=common_f | Fm.DOTMATCH)
+        inc = any(one(q) for q in pos if q != '') if pos else True
+        return inc and not any(one(q) for q in neg if q != '')
     out = []
     visited = 0
     stack = [root]
@@ -108,7 +142,7 @@ def run(ctx):
         with trees.Tree(spec) as T:
             cyc = globcommon.has_dir_cycle(T.root)
             cases = []
-            for _ in range(50 if ctx.quick else 150):
+            for _ in range(120 if ctx.quick else 400):
                 f = 0
                 for nm in flagsets:
                     pr = .8 if nm == 'RECURSIVE' else .3
